@@ -293,3 +293,88 @@ def h_handle_crypto_frame(c, new_data, has_random, has_suite, has_handshake_keys
 
 
 h_handle_crypto_frame.must_cover = ["returned"]
+
+
+QD = "tlexport.quic.quic_dissector"
+
+
+@harness(["C02", "C03", "C15"], "quic.handle_packet", functions=[QS + ".handle_packet"], cases=[(True,), (False,)])
+def h_handle_packet(c, has_initial):
+    """one UDP datagram may carry several coalesced QUIC packets, and handling one of them can change the session (a CRYPTO frame
+    fixes the cipher suite and installs keys, a Retry replaces keys and TLS state).  Loop contract of QuicSession.handle_packet,
+    for ANY number of coalesced packets: every call of the dissector gets the session's CURRENT key table and CURRENT cipher suite
+    (not the ones of an earlier iteration), the direction and connection ID of the datagram and the rest of the datagram; what it
+    extracts is handed to handle_quic_packet before the next packet is dissected; Initial keys are set up once, always for AES;
+    the loop terminates (variant: bytes left, by the dissector's progress contract robust.quic_dissector)"""
+    if c.native:
+        return
+    from pyvc.api import len_
+    QV = "tlexport.quic.quic_decode.QuicVersion"
+    dcid = c.bytes("dcid", max_len=20)
+    isserver = c.bool("isserver")
+    version = c.enum(QV, c.choice("datagram_version", ["V1", "V2", "UNKNOWN"]))
+    known = c.enum(QV, c.choice("session_version", ["V1", "UNKNOWN"]))
+    pkt = c.obj("tlexport.packet.Packet", tls_data=c.bytes("datagram", min_len=1))
+    s = c.obj(QS, quic_version=known, decryptors=({"Initial": c.opaque("initial_decryptor")} if has_initial else {}), keys={"k": c.opaque("key")},
+              tls_session=c.record("QuicTlsSession", ciphersuite=None), packet_buffer_quic=[])
+    events, initial = [], []
+
+    def scramble(tag):
+        """whatever handling a packet may do to the handshake state: suite fixed or changed, keys added, or (Retry) both replaced"""
+        how = c.E.choose(3)
+        if how == 0:
+            return
+        suite = c.bytes_fresh("suite_" + tag, 2, 2)
+        if how == 1:
+            c.get(s, "tls_session").attrs["ciphersuite"] = suite
+            c.get(s, "keys")["added_" + tag] = c.opaque("key")
+        else:
+            c.set(s, "tls_session", c.record("QuicTlsSession", ciphersuite=suite))
+            c.set(s, "keys", {})
+    c.summary_override(QS + ".set_initial_decryptor", lambda ctx, slf, d, chacha: initial.append((d, chacha)) or slf.attrs["decryptors"].__setitem__("Initial", c.opaque("initial")))
+    c.summary_override(QS + ".packet_isserver", lambda ctx, slf, p, d: isserver)
+
+    def s_extract(ctx, in_packet=None, isserver=None, guessed_dcid=None, keys=None, ciphersuite=None):
+        cur = c.get(s, "tls_session")
+        c.ensure("dissector.gets_the_current_key_table", keys is c.get(s, "keys"))
+        c.ensure("dissector.gets_the_current_cipher_suite", ciphersuite is c.get(cur, "ciphersuite"))
+        c.ensure("dissector.gets_the_datagram's_direction_and_connection_id", c.same_object(isserver, h_isserver[0]) and guessed_dcid is dcid)
+        c.ensure("dissector.gets_the_rest_of_the_datagram", in_packet is pkt)
+        old = len_(c.get(in_packet, "tls_data"))
+        rest = c.bytes_fresh("rest", 0, None)
+        c.assume(len_(rest) < old)                                   # progress: robust.quic_dissector.consumes_input
+        c.set(in_packet, "tls_data", rest)
+        qp = c.opaque("quic_packet")
+        events.append(("extract", qp))
+        return [qp], in_packet
+    h_isserver = [isserver]
+    c.summary_override(QD + ".extract_quic_packet", s_extract)
+
+    def s_handle(ctx, slf):
+        buf = slf.attrs["packet_buffer_quic"]
+        events.append(("handle", list(buf)))
+        del buf[:]
+        scramble("h%d" % len(events))
+    c.summary_override(QS + ".handle_quic_packet", s_handle)
+
+    def ghost(phase, e):
+        if phase == "havoc":
+            del events[:]
+            scramble("loop_head")                                     # the state at the head of an arbitrary iteration
+            c.set(pkt, "tls_data", c.bytes_fresh("datagram_rest", 0, None))
+        elif phase == "step":
+            c.ensure("extracted_packets_handled_before_the_next_is_dissected", len(events) == 2 and events[0][0] == "extract" and events[1][0] == "handle"
+                     and len(events[1][1]) == 1 and events[1][1][0] is events[0][1])
+            c.cover("iteration")
+    c.loop(QS + ".handle_packet", "while len(packet.tls_data) != 0", invariant=lambda e: e.packet is pkt and e.self.attrs["packet_buffer_quic"] == [],
+           decreases=lambda e: len_(c.get(pkt, "tls_data")), havoc={"packet": lambda cur: pkt, "quic_packets": lambda cur: None, "self.packet_buffer_quic": lambda cur: []}, ghost_step=ghost)
+    out = c.method(s, "handle_packet", pkt, dcid, version)
+    c.ensure("no_raise", out.exc is None, kind="raises")
+    if out.exc is not None:
+        return
+    c.ensure("initial_keys.set_up_once_for_aes_iff_missing", initial == ([] if has_initial else [(dcid, False)]))
+    c.ensure("version_learned_from_the_first_datagram", c.get(s, "quic_version") is (known if known is not c.enum(QV, "UNKNOWN") else version))
+    c.cover("returned")
+
+
+h_handle_packet.must_cover = ["returned", "iteration"]
